@@ -34,6 +34,13 @@ AREAS = {
                 '(thorough -470 KB) with small, medium and maximum-size messages, short garbage, and in a third of the cases maximum-size messages '
                 'with an embedded marker followed by non-marker bytes, half of them with a first read that ends exactly at the message end (+0..3)',
     },
+    'ft': {
+        'shrink_sep': ';', 'head_sep': ' | ',
+        'rule': '1-3 concurrent transfers (package size 1-6 / thorough 1-40, 1-5 / 1-12 packages, last package full or shorter, announced size true or 0, '
+                'serials occasionally colliding) each with 0-2 faults (drop, duplicate-and-move, swap, resize, renumber, corrupt announcement) interleaved at '
+                'random with each other and with unrelated messages; every transfer is labelled from its final event sequence (in order / in order with '
+                'repeats / package missing or out of order / other); non-trivial = tagged (complete, incomplete, missing FLST, duplicates, damaging fault, concurrent)',
+    },
     'dp': {
         'shrink_sep': ';', 'head_sep': None,
         'rule': 'byte streams built from items: well-formed messages (all 32 combinations of the optional header parts, both byte orders, '
@@ -75,6 +82,11 @@ PROPS = {
         'theorems': ['Props.C04_reader_invariant', 'Props.C04_fill_hands_out_source', 'Props.C04_read_in_order',
                      'Props.C04_seek_within_buffer', 'Props.C04_consts'],
         'n_quick': [1500, 60], 'n_thorough': [40000, 1500],
+    },
+    'C17': {
+        'id': 'C17', 'area': 'ft',
+        'theorems': ['Props.C17_complete_sound', 'Props.C17_inorder_complete'],
+        'n_quick': 5000, 'n_thorough': 200000,
     },
     'C05': {
         'id': 'C05', 'area': 'lc',
